@@ -82,35 +82,7 @@ func c01(r *core.Report) {
 
 	// ---- C01-BORROW-SEND
 	r.Rule("C01-BORROW-SEND", "no alias of a Tell/Ask payload element is written or outlives the call", 24)
-	sendRoots := ctxMethods(p, "Tell", "Ask")
-	for _, n := range []string{"stringMuxFunc", "varintMuxFunc", "uint16MuxFunc", "uint32MuxFunc", "uint64MuxFunc"} {
-		if f := needFn(r, "p/p2pmux", n); f != nil {
-			sendRoots = append(sendRoots, f)
-		}
-	}
-	for _, extra := range [][2]string{{"s/vswarm", "SecureRealm.tell"}, {"s/vswarm", "SecureRealm.ask"}, {"p/p2pmux", "muxCore.tell"}, {"p/p2pmux", "muxCore.ask"}, {"s/swarmutil", "Queue.DeliverVec"}, {"p/p2pke", "Channel.Send"}, {"p/mbapp", "Swarm.send"}, {"s/fragswarm", "newMessage"}, {"s/quicswarm", "writeFrame"}} {
-		if f := needFn(r, extra[0], extra[1]); f != nil {
-			sendRoots = append(sendRoots, f)
-		}
-	}
-	for _, fn := range sendRoots {
-		r.Analysed(fn)
-		idx := -1
-		for i, prm := range fn.Params {
-			tn := prm.Type().String()
-			if strings.HasSuffix(tn, "p2p.IOVec") || strings.HasSuffix(tn, "net.Buffers") {
-				idx = i
-			}
-			if st, ok := prm.Type().Underlying().(*types.Struct); ok && fn.Name() == "send" {
-				_ = st
-				idx = i // sendParams carries the vector
-			}
-		}
-		if idx < 0 {
-			continue
-		}
-		borrowReport(r, "C01-BORROW-SEND", core.FnName(fn), fn, bw.AnalyseParam(fn, idx))
-	}
+	ruleBorrowSend(r, bw, "C01-BORROW-SEND")
 
 	// ---- C01-BORROW-RECV
 	r.Rule("C01-BORROW-RECV", "no alias of a received message's payload is written or outlives the callback", 9)
@@ -161,6 +133,61 @@ func c01(r *core.Report) {
 		}
 		if n == 0 {
 			r.Fail("C01-NO-TRUNCATION: no payload write found in quicswarm Tell (anchor stale)")
+		}
+	}
+
+	// receiver side of the same clause: what was read before a stream or frame read FAILED is a prefix of a
+	// message; it must not reach a hub. The test has to be on the read's own error (an error that was first
+	// passed through a classifier such as quicErr, which maps "session closed with code 0" to nil, lets the
+	// prefix through as a complete message).
+	r.Rule("C01-READ-ERROR-DROPS", "quicswarm delivers what it read from a stream only on the nil edge of the read's own error", 2)
+	{
+		n := 0
+		rf := p.Func("s/quicswarm", "readFrame")
+		for _, fn := range p.ModFuncs {
+			if fn.Pkg == nil || fn.Pkg.Pkg.Path() != core.ModPath+"/s/quicswarm" {
+				continue
+			}
+			for _, in := range core.AllInstrs(fn) {
+				rd, ok := in.(*ssa.Call)
+				if !ok {
+					continue
+				}
+				name := core.CalleeName(rd.Common())
+				if !(name == "io.ReadAll" || name == "io.ReadFull" || (rf != nil && core.IsCallToFn(rd.Common(), rf))) {
+					continue
+				}
+				isDeliver := func(i2 ssa.Instruction) bool {
+					ci, ok := i2.(ssa.CallInstruction)
+					if !ok {
+						return false
+					}
+					g := core.StaticCallee(ci.Common())
+					return g != nil && (g == h.fns["TellHub.Deliver"] || g == h.fns["AskHub.Deliver"] || g.Origin() == h.fns["TellHub.Deliver"] || g.Origin() == h.fns["AskHub.Deliver"])
+				}
+				delivers := false
+				for i2 := range core.Reach(fn, rd, nil, nil) {
+					if isDeliver(i2) {
+						delivers = true
+					}
+				}
+				if !delivers {
+					continue
+				}
+				n++
+				r.Analysed(fn)
+				bad := false
+				for i2 := range core.Reach(fn, rd, cutErrNilOf(rd), nil) {
+					if isDeliver(i2) {
+						bad = true
+					}
+				}
+				r.Check(!bad, "C01-READ-ERROR-DROPS", core.FnName(fn)+" after "+name, p.Pos(rd.Pos()), "the hub is not reachable on the edge where this read returned an error",
+					"the bytes read before "+name+" failed can reach a hub: when the sender's session ends in the middle of a message the receiver delivers the prefix it has as a complete message")
+			}
+		}
+		if n < 2 {
+			r.Fail("C01-READ-ERROR-DROPS: found %d stream reads followed by a delivery in quicswarm, 2 confirmed on the pinned tree", n)
 		}
 	}
 
@@ -504,4 +531,42 @@ func ruleBorrowRecv(r *core.Report, h *hubSlots, bw *core.Borrow, ruleID string)
 		r.Analysed(fn)
 		borrowReport(r, ruleID, core.FnName(fn)+" "+extra.param, fn, bw.AnalyseParam(fn, idx))
 	}
+}
+
+// ruleBorrowSend: in every Tell/Ask method, framing function and send helper that is handed the caller's
+// vector, no alias of an element of the vector is written or outlives the call (the caller may reuse or
+// share its buffers as soon as Tell/Ask returned; a layer that passes them on by reference to a callback,
+// a queue or a goroutine hands out the caller's memory). Shared by C01, C11 (Ask) and C14.
+func ruleBorrowSend(r *core.Report, bw *core.Borrow, ruleID string) {
+	p := r.P
+	sendRoots := ctxMethods(p, "Tell", "Ask")
+	for _, n := range []string{"stringMuxFunc", "varintMuxFunc", "uint16MuxFunc", "uint32MuxFunc", "uint64MuxFunc"} {
+		if f := needFn(r, "p/p2pmux", n); f != nil {
+			sendRoots = append(sendRoots, f)
+		}
+	}
+	for _, extra := range [][2]string{{"s/vswarm", "SecureRealm.tell"}, {"s/vswarm", "SecureRealm.ask"}, {"p/p2pmux", "muxCore.tell"}, {"p/p2pmux", "muxCore.ask"}, {"s/swarmutil", "Queue.DeliverVec"}, {"p/p2pke", "Channel.Send"}, {"p/mbapp", "Swarm.send"}, {"s/fragswarm", "newMessage"}, {"s/quicswarm", "writeFrame"}} {
+		if f := needFn(r, extra[0], extra[1]); f != nil {
+			sendRoots = append(sendRoots, f)
+		}
+	}
+	for _, fn := range sendRoots {
+		r.Analysed(fn)
+		idx := -1
+		for i, prm := range fn.Params {
+			tn := prm.Type().String()
+			if strings.HasSuffix(tn, "p2p.IOVec") || strings.HasSuffix(tn, "net.Buffers") {
+				idx = i
+			}
+			if st, ok := prm.Type().Underlying().(*types.Struct); ok && fn.Name() == "send" {
+				_ = st
+				idx = i // sendParams carries the vector
+			}
+		}
+		if idx < 0 {
+			continue
+		}
+		borrowReport(r, ruleID, core.FnName(fn), fn, bw.AnalyseParam(fn, idx))
+	}
+
 }
